@@ -178,6 +178,32 @@ def correspond(ctx):
         idx.append(n)
     codes = c01.coq_eval_codes("C04", HEADER, coq_cases, shard=1200 if ctx["tier"] == "quick" else 3000)
     mismatches, oracle_failures = [], []
+    # accessors of a successfully built value report the arguments it was built from (bit for bit, NaN payloads and signed zeros
+    # included): Normal::{mean,std_dev}, SkewNormal::{location,scale,shape}, Dirichlet::sample_len; the weighted indices' len/get are
+    # part of weighted_ctor_oracle below
+    naccessor = 0
+    for (name, ty, ints, hs), o, line in zip(jobs, outs, lines):
+        if not o.startswith("Ok:"): continue
+        got = o[3:].split(",")
+        exp = None
+        if name in ("Normal::new", "SkewNormal::new"):
+            exp = ["x" + h for h in hs]
+        elif name == "Normal::from_mean_cv":
+            m, cv = S.bits_val(ty, hs[0]), S.bits_val(ty, hs[1])
+            sd = cv * m                                # exact in binary64 for f32 operands; one rounding to the format
+            try:
+                sdr = S.f_round(ty, sd)
+            except OverflowError:
+                sdr = math.copysign(math.inf, sd)
+            exp = ["x" + hs[0], "x" + S.f_bits(ty, sdr)]
+            if sd != sd: exp[1] = got[1] if S.bits_val(ty, got[1][1:]) != S.bits_val(ty, got[1][1:]) else exp[1]   # any NaN
+        elif name == "Dirichlet::new":
+            exp = [str(len(hs))]
+        if exp is None: continue
+        naccessor += 1
+        if got != exp:
+            oracle_failures.append({"property": PID, "class": "accessor", "ctor": name, "type": ty, "args": hs, "harness_line": line,
+                                    "what": "%s<%s>(%s): the accessors report %s, the value was built from %s" % (name, ty, hs, got, exp)})
     per = {}
     skipped_model = 0
     for n, code in zip(idx, codes):
